@@ -213,6 +213,9 @@ func accessPath(v ssa.Value) string {
 		if x.Comment != "" && !strings.Contains(x.Comment, " ") {
 			return "%" + x.Comment
 		}
+	case *ssa.Extract, *ssa.Call:
+		// an SSA temporary is immutable: its register name identifies it within the function
+		return "%" + v.Name()
 	}
 	return ""
 }
